@@ -69,7 +69,7 @@ def check_doc(chk: Check, site: driver.Site, c: Case, view: str, tls_mode=None) 
         chk.witness("C04/request-failed:%s" % key_tail, dict(sample, escaped=resp.escaped[:1], tls_error=resp.tls_error,
                                                              exceptions=resp.exceptions()))
         return
-    v = validate.validate(resp, req, head=(view == "httphead"))
+    v = validate.validate(resp, req, head=(view in ("httphead", "waphead")))
     if not v.ok or v.klass not in ("doc", "headonly"):
         chk.witness("C04/not-a-document-reply:%s" % key_tail, dict(sample, reason=v.reason, klass=v.klass))
         return
@@ -93,8 +93,8 @@ def check_doc(chk: Check, site: driver.Site, c: Case, view: str, tls_mode=None) 
         d = v.parsed
         hdr = dict(d["headers"])
         mime = hdr.get("content-type", b"").decode("latin-1")
-        if view == "httphead":
-            g = site.request(*reqs.render("http", sel)[:1])
+        if view in ("httphead", "waphead"):
+            g = site.request(*reqs.render("http" if view == "httphead" else "wap", sel)[:1])
             gd = parsers.parse_http(g.data)
             if gd["headers"] != d["headers"] or gd["status"] != d["status"]:
                 chk.witness("C04/head-headers-differ-from-get", dict(sample, head=d["headers"], get=gd["headers"]))
@@ -103,8 +103,9 @@ def check_doc(chk: Check, site: driver.Site, c: Case, view: str, tls_mode=None) 
                 chk.witness("C04/head-has-body", sample)
                 return
             chk.case(sig, None)
-            if mime != c.mime:
-                chk.witness("C04/mime:%s" % key_tail, dict(sample, advertised=mime, expected=c.mime))
+            want_mime = "text/vnd.wap.wml" if (view == "waphead" and c.mime == "text/plain") else c.mime
+            if mime != want_mime:
+                chk.witness("C04/mime:%s" % key_tail, dict(sample, advertised=mime, expected=want_mime))
             return
         body = d["body"]
         if fam == "wap" and c.mime == "text/plain":
